@@ -140,7 +140,7 @@ class FnSpec:
     def loop(self, n):
         return self.loops.setdefault(n, dict(invariant=[], invariant_except_break=[], ensures=[],
                                               decreases=None, prefix=[], for_continue=False, body_invariant=[],
-                                              body_ensures=[], iter_name=None, body_prefix=[]))
+                                              body_ensures=[], iter_name=None, body_prefix=[], suffix=[]))
 
     def clause_ids(self):
         ids = [c[0] for c in self.requires + self.ensures]
@@ -150,6 +150,7 @@ class FnSpec:
             ids += [c[0] for c in l['invariant'] + l['invariant_except_break'] + l['ensures'] + l['body_invariant'] + l['body_ensures']]
             if l['decreases']:
                 ids.append(l['decreases'][0])
+            ids += [c[0] for c in l.get('suffix', [])]
         ids += [h[0] for h in self.hints]
         ids += [w[0] for w in self.wraps]
         ids += [w[0] for w in self.arm_wraps]
@@ -411,6 +412,14 @@ def splice_fn(text, spec, lo=0, hi=None):
             add(lb, '\n' + '\n'.join(cl) + '\n' + lind, order=1)
         for p in l['prefix']:
             add(lb + 1, '\n' + _ind(p, lind + '    '), order=0)
+        if l['suffix']:
+            # ghost proof steps at the end of the loop body (before its closing brace); if the body ends in a tail
+            # expression the loop would not type-check as () anyway, so a statement position is guaranteed
+            lclose = match_close(masked, lb)
+            for cid, t in l['suffix']:
+                if cid in getattr(spec, 'dropped', set()):
+                    continue
+                add(lclose, '    ' + mark(t, cid) + '\n' + lind, order=0)
         if l['iter_name']:
             # T4: name the ghost iterator handle of a `for` loop:  for x in e  ->  for x in <name>: e
             mm = re.compile(r'\bin\b').search(masked, kw, lb)
